@@ -41,6 +41,8 @@ type c04Prog struct {
 	Threads [][]string // item lines per goroutine
 	Focus   string
 	Torn    []string // when set: every HReadAt result of the concurrent phase must be one of these
+	// at most this many distinct histories of the program are emitted (0: 40)
+	MaxDistinct int
 	solo    [][]string
 	soloFin []string
 }
@@ -747,6 +749,9 @@ func (s *c04State) judge() {
 			}
 		}
 		sig := "nonlin:" + c04Culprits(ks)
+		if strings.HasPrefix(e.prog.Focus, "preempt-") {
+			sig += "@" + e.prog.Focus // which window of real preemption (c04PreemptProgs)
+		}
 		coreKinds := c04Sig(ks)
 		c.Oracle("FAIL %s %s no order of the %d calls respects real time and reproduces the results and the final state on the sequential model (%s); core kinds %s; focus=%s mode=%s seen %d times",
 			e.id, sig, len(h.Calls), strings.Join(t[3:], " "), coreKinds, e.prog.Focus, e.mode, e.count)
@@ -860,6 +865,17 @@ func c04StressPhase(s *c04State) {
 		p := c04GenProg(c.Rng, pi)
 		s.stressProg(fmt.Sprintf("h%d", pi), p, reps)
 	}
+	// the windows only real preemption opens (after the generated programs: their random
+	// streams stay what they were)
+	if os.Getenv("C04_NOPREEMPT") == "" {
+		t0 := time.Now()
+		for wi, w := range c04PreemptProgs(c.Tier) {
+			n0 := s.total
+			s.stressProg(fmt.Sprintf("p%d", wi), w.prog, w.reps)
+			c.Add("preempt."+w.prog.Focus+".rounds", s.total-n0)
+		}
+		c.Extra["preempt_s"] = fmt.Sprintf("%.1f", time.Since(t0).Seconds())
+	}
 }
 
 func (s *c04State) stressProg(idp string, p *c04Prog, reps int) {
@@ -885,7 +901,11 @@ func (s *c04State) stressProg(idp string, p *c04Prog, reps int) {
 			e.count++
 			continue
 		}
-		if len(seen) >= 40 { // bound the output per program; still counted
+		maxd := 40
+		if p.MaxDistinct > 0 {
+			maxd = p.MaxDistinct
+		}
+		if len(seen) >= maxd { // bound the output per program; still counted
 			c.Count("histories.dropped-over-40-distinct")
 			continue
 		}
